@@ -112,6 +112,16 @@ func testCert(key, issuer, serial string) *x509.Certificate {
 		tmpl.SignatureAlgorithm = x509.SHA512WithRSA
 	case "sigpss":
 		tmpl.SignatureAlgorithm = x509.SHA256WithRSAPSS
+	case "selfca":
+		// what "openssl req -x509" makes and what most PK / KEK / db certificates are: self-signed, CA:TRUE, no keyUsage extension
+		tmpl.IsCA, tmpl.KeyUsage = true, 0
+	case "kuca":
+		// a self-signed CA certificate used directly as signing certificate: keyUsage = keyCertSign | cRLSign
+		tmpl.IsCA, tmpl.KeyUsage = true, x509.KeyUsageCertSign|x509.KeyUsageCRLSign
+	case "kuenc":
+		tmpl.KeyUsage = x509.KeyUsageKeyEncipherment
+	case "noext":
+		tmpl.KeyUsage, tmpl.BasicConstraintsValid = 0, false // no keyUsage, no basicConstraints
 	}
 	parent, signKey := tmpl, k
 	if issuer == "ca" {
